@@ -459,3 +459,28 @@ impl VtShape {
         s
     }
 }
+
+/// long inputs over 3 variables: one clause with k = 1..maxk literals and lists of k unit
+/// clauses, where the elements at positions i (and j >= i) are the only ones on x1 (negated x2)
+/// and all others repeat x0: losing or duplicating any single element changes the models
+pub fn long_lists(maxk: usize) -> Vec<Vec<Clause>> {
+    let mut lists: Vec<Vec<Clause>> = Vec::new();
+    for k in 1..=maxk {
+        for i in 0..k {
+            for j in i..k {
+                let lit = |p: usize| -> Lit {
+                    if p == i {
+                        (1, true)
+                    } else if p == j {
+                        (2, false)
+                    } else {
+                        (0, true)
+                    }
+                };
+                lists.push(vec![(0..k).map(lit).collect()]);
+                lists.push((0..k).map(|p| vec![lit(p)]).collect());
+            }
+        }
+    }
+    lists
+}
